@@ -116,3 +116,11 @@ CLAIMS["C01"] = (
     "Assumes the cached evaluation order is topological (C02/C13) and dict/zip(strict) semantics.",
     "DESIGN.md section 4 C01",
 )
+CLAIMS["C06"] = (
+    "dispatcher/handler extraction over the translator (isinstance chains and match statements: handled kinds, what the default branch does, which node fields are consumed), alias analysis of the context argument across branch translations, table vetting against a reference, and None-visibility analysis of all fn_to_sympy call sites",
+    "Decides the translator's refusal discipline and structural soundness conditions for ALL function bodies: (S1) every dispatcher default (statements, expressions, operators, callee shapes, comparison operators) refuses, only effect-free statements are passed over; (S2) list-valued node fields (comparison links, call keywords/starred, assignment targets, tuple targets) are consumed or refused; "
+    "(S3) ==/!= build sympy.Eq/Ne; (S4) alternative branches get distinct fresh symbol tables; (S5) a non-returning branch continues into the following statements and the last-assignment fallback never supplies a branch value; (S6) argument renaming is simultaneous; (S7) 90 table entries vetted against a reference; "
+    "(S8) only declared refusal exceptions become None and every claimed call site tests for None; (S9) tuple assignment evaluates before binding. Semantic equality of the handled constructs (Piecewise/Mod/// vs CPython, boundaries) is not decided.",
+    "Reference table of Python->sympy meanings is the trusted base (one reason per non-obvious entry); unknown keys are INFO, never alarms. Name resolution through runtime introspection is not analysed.",
+    "DESIGN.md section 4 C06",
+)
